@@ -95,6 +95,9 @@ func hookServer() (string, error) {
 	return hookAddr, hookErr
 }
 
+// StockFallback makes drivers built afterwards answer through cbreaker.NewResponseFallback (503).
+var StockFallback bool
+
 // Decoy makes New build a second, unrelated breaker (other durations) right after the one it
 // returns.
 var Decoy bool
@@ -149,6 +152,8 @@ type Driver struct {
 	// ImplicitOK: a request finished with status 200 does not call WriteHeader at all, it only
 	// writes a body (net/http's implicit 200)
 	ImplicitOK bool
+	// NextMethod, when set, is the method of the next request only (default GET).
+	NextMethod string
 	hookPaths  []string
 }
 
@@ -175,9 +180,21 @@ func New(t Fataler, expr string, f, r, p time.Duration, phase time.Duration) *Dr
 	if BlockEffects {
 		d.OnTripped.Hold, d.OnStandby.Hold = make(chan struct{}), make(chan struct{})
 	}
+	var stock http.Handler
+	if StockFallback {
+		rf, err := cbreaker.NewResponseFallback(cbreaker.Response{StatusCode: http.StatusServiceUnavailable, ContentType: "text/plain", Body: []byte("temporarily unavailable")})
+		if err != nil {
+			t.Fatalf("NewResponseFallback: %v", err)
+		}
+		stock = rf
+	}
 	fb := http.HandlerFunc(func(w http.ResponseWriter, req *http.Request) {
 		d.Fallbacks++
 		w.Header().Set("X-Fallback", "1")
+		if stock != nil { // the breaker's stock response fallback does the answering
+			stock.ServeHTTP(w, req)
+			return
+		}
 		w.WriteHeader(http.StatusServiceUnavailable)
 	})
 	var onTripped, onStandby cbreaker.SideEffect = d.OnTripped, d.OnStandby
@@ -254,7 +271,11 @@ func (d *Driver) Advance(dur time.Duration) {
 // handler (and is now in flight) or was answered by the fallback.
 func (d *Driver) Start(headers ...string) (passed bool) {
 	before := d.Fallbacks
-	req := httptest.NewRequest("GET", "http://x/", nil)
+	method := "GET"
+	if d.NextMethod != "" {
+		method, d.NextMethod = d.NextMethod, ""
+	}
+	req := httptest.NewRequest(method, "http://x/", nil)
 	for i := 0; i+1 < len(headers); i += 2 {
 		req.Header.Add(headers[i], headers[i+1])
 	}
@@ -284,6 +305,9 @@ func (d *Driver) Start(headers ...string) (passed bool) {
 		d.InFlight = append(d.InFlight, &Flight{C: c, Started: d.Now})
 		d.logf("start->handler")
 		return true
+	}
+	if d.Fallbacks == before+1 && c.Rec.Status() != http.StatusServiceUnavailable {
+		d.T.Fatalf("the %s request arriving at +%v was handed to the fallback (configured answer: 503) but the client got status %d\n%s", method, d.Now, c.Rec.Status(), d.History())
 	}
 	if d.Fallbacks != before+1 || c.Rec.Header().Get("X-Fallback") != "1" {
 		d.T.Fatalf("request neither reached the handler nor was answered by the fallback (status %d, fallback ran %d times)\n%s", c.Rec.Status(), d.Fallbacks-before, d.History())
